@@ -99,12 +99,24 @@ def _rep_chunk(items):
         sys.path.insert(0, _REPO)
     from harness import drive
     from sqllineage.core.metadata.dummy import DummyMetaDataProvider
+    from sqllineage.runner import LineageRunner
     out = []
     for it in items:
         provider = DummyMetaDataProvider(it["metadata"])
         ev = []
-        for rep in range(3):
+        first = None
+        for rep in range(4):
+            if rep == 3 and first is not None and first.get("source"):
+                # before the last repetition: an analysis with the same provider that creates tables the script reads and then fails
+                try:
+                    LineageRunner(";\n".join("create table %s as select zq1, zq2 from zsrc" % t for t in first["source"][:3] if "." in t and not t.startswith("<"))
+                                  + ";\nselect from where (", dialect=it["dialect"] if it["dialect"] != "non-validating" else "ansi",
+                                  metadata_provider=provider).source_tables
+                except Exception:  # noqa
+                    pass
             d = drive.dump(it["sql"], it["dialect"], provider=provider)
+            if first is None:
+                first = d
             for k in ("nodes", "col_nodes", "col_edge_recs"):
                 d.pop(k, None)
             ev.append({"a": "dump", "mutate": False, "digest": hashlib.sha1(json.dumps(d, sort_keys=True, default=str).encode()).hexdigest()[:12], "seed": rep})
@@ -158,6 +170,8 @@ def run(chk):
     # target-only tables (DDL, INSERT ... VALUES), a self loop, a rename and a drop: every role set is non-empty
     scripts.append(("create table ddl_only (x int); insert into vals values (1, 2); insert into lp select * from lp; "
                     "insert into t2 select a from s1; alter table t2 rename to t3; insert into t4 select a from t3; drop table s9", "ansi"))
+    # a top-level SELECT over a derived table and one over a CTE: column paths that end in a subquery column
+    scripts.append(("insert into t1 select a, b from s1; select q.a, q.b from (select a, b from t1) q; with c as (select a from s2) select c.a from c", "ansi"))
     if not quick:
         multi = [c for c in corpus if ";" in c["sql"].strip().rstrip(";") and c["metadata"] is None][:4]
         scripts += [(c["sql"], c["dialect"]) for c in multi]
@@ -179,6 +193,13 @@ def run(chk):
                   "dialect": "ansi", "metadata": {"s.a": ["i", "x"], "s.b": ["j", "y"], "s.c": ["p", "q", "r", "w"]}, "origin": "pinned"})
     items.append({"sql": "create table s.tgt as select * from s.b y join (select k, l from s.q) z on 1 = 1 join s.a on 1 = 1; insert into s.tgt select p, q, r, w, v, u from s.c",
                   "dialect": "ansi", "metadata": {"s.a": ["i", "x"], "s.b": ["j", "y"], "s.c": ["p", "q", "r", "w", "v", "u"]}, "origin": "pinned"})
+    # a CTE name defined again in a nested WITH (KF-C11-6)
+    items.append({"sql": "with c as (select a from t1) insert into x select a from (with c as (select a from t2) select a from c) q",
+                  "dialect": "ansi", "metadata": None, "origin": "pinned"})
+    # a table written twice (the second time with columns it did not have), then a positional INSERT into it
+    items.append({"sql": "create table s.t as select a from s.src; insert into s.t (a, b, c, d, e) select a, b, c, d, e from s.src; "
+                         "insert into s.t select p, q, r, w, v from s.c",
+                  "dialect": "ansi", "metadata": {"s.src": ["a", "b", "c", "d", "e"], "s.c": ["p", "q", "r", "w", "v"]}, "origin": "pinned"})
     items += inputs.script_items(chk, 300 if quick else 3000, chk.seed + 2)
     if quick:
         pinned = [x for x in items if x.get("origin") == "pinned"]
